@@ -4,7 +4,7 @@ from props.common import *  # noqa: F401,F403
 
 FUNCTIONS = SEARCH_FUNCS + DESIGN_FUNCS
 NATIVE_FUNCTIONS = SEARCH_NATIVES
-LEVEL = "proof"
+LEVEL = "other"
 
 
 def lemmas():
@@ -25,7 +25,7 @@ EXPLANATION = ("Every search class is verified against the abstract oracle EX: o
                "every sign pattern of the excess (loop invariants of the integer bisection and of the final selection, no unrolling). GHE.size / solve_root are verified "
                "against a model of brentq; GHEManager.find_design composes search -> compute_g_functions -> size and yields: excess(returned height) changes sign within the solver "
                "tolerance or the height is clamped at the minimum with negative excess. Counter-models are replayed on the real search()/search_successive() with a table-driven oracle.")
-LEVEL_TEXT = ("Deductive proof over the abstract excess oracle (all loads, soils, pipes, fluids, limits are inside it): each bisection search returns a candidate that is feasible at "
+LEVEL_TEXT = ("[level other because RowWiseModifiedBisectionSearch.search, one of the search classes the statement quantifies over, is covered only by a bounded oracle-stubbed run-time contract] Deductive proof over the abstract excess oracle (all loads, soils, pipes, fluids, limits are inside it): each bisection search returns a candidate that is feasible at "
               "maximum height unless the documented escape is taken, and find_design sizes it to a height where the excess changes sign within solver tolerance or clamps at the "
               "minimum height with negative excess; all candidate-list lengths, thresholds and sign patterns at once. RowWise and the 1e-3 K figure are bounded/assumption-based.")
 LEVEL_NOTE = "Trusted: pyvc, z3/cvc5, brentq model (A-BRENT), A-NODE, A-HMONO, A-LIP, A-DET, A-REAL; RowWise search only bounded."
